@@ -15,6 +15,12 @@ seed = os.path.abspath(sys.argv[1])
 props = sys.argv[2:]
 # --verif-rev=<git rev>: run the checks of that committed state of /verif (how the check stood then)
 VREV = None
+# --seeds=a,b,c: run every check once per seed (default: the check's own default seed only)
+SEEDS = [None]
+for a in list(props):
+    if a.startswith("--seeds="):
+        SEEDS = [x for x in a.split("=", 1)[1].split(",") if x]
+        props.remove(a)
 for a in list(props):
     if a.startswith("--verif-rev="):
         VREV = a.split("=", 1)[1]
@@ -66,19 +72,21 @@ try:
     open(f"{vc}/harness/Cargo.toml", "w").write(ct)
     res["checks"] = {}
     for p in props:
-        rc, out = sh(f"./check {p} --tier quick", cwd=vc, timeout=3600)
-        lines = [l for l in out.split("\n") if l.startswith(("VIOLATION", "OK", "KNOWN", "FINDING", "BROKEN"))]
-        res["checks"][p] = {"exit": rc, "lines": [l[:400] for l in lines[:4]]}
-        if rc != 0:
-            rp = [l for l in lines if l.startswith("VIOLATION")]
-            if rp and "replay=" in rp[0]:
-                path = rp[0].split("replay=")[1].split()[0]
-                try:
-                    r = json.load(open(path))
-                    res["checks"][p]["replay_ops"] = r.get("ops", [])[:40]
-                    res["checks"][p]["class"] = r.get("class")
-                except Exception as e:  # noqa: BLE001
-                    res["checks"][p]["replay_err"] = str(e)
+        for sd in SEEDS:
+            key = p if sd is None else f"{p}@{sd}"
+            rc, out = sh(f"./check {p} --tier quick" + ("" if sd is None else f" --seed {sd}"), cwd=vc, timeout=3600)
+            lines = [l for l in out.split("\n") if l.startswith(("VIOLATION", "OK", "KNOWN", "FINDING", "BROKEN"))]
+            res["checks"][key] = {"exit": rc, "lines": [l[:400] for l in lines[:4]]}
+            if rc != 0:
+                rp = [l for l in lines if l.startswith("VIOLATION")]
+                if rp and "replay=" in rp[0]:
+                    path = rp[0].split("replay=")[1].split()[0]
+                    try:
+                        r = json.load(open(path))
+                        res["checks"][key]["replay_ops"] = r.get("ops", [])[:40]
+                        res["checks"][key]["class"] = r.get("class")
+                    except Exception as e:  # noqa: BLE001
+                        res["checks"][key]["replay_err"] = str(e)
 finally:
     sh(f"git -C /repo worktree remove --force {wt}")
     shutil.rmtree(base, ignore_errors=True)
